@@ -42,6 +42,7 @@ func (e *Eng) encodeFunction(fn *ssa.Function, con *Contract) (res *FnResult) {
 		res.NInst += len(b.Instrs)
 	}
 	f.ixWrap = con.EMatch
+	c.strExt = con.StrExt
 	// source-order ordinals of the call sites of the function under contract
 	{
 		type site struct {
@@ -228,6 +229,10 @@ func (e *Eng) encodeFunction(fn *ssa.Function, con *Contract) (res *FnResult) {
 			label := en.Label
 			if label == "" {
 				label = fmt.Sprint(i + 1)
+			}
+			if en.Assumed {
+				c.trusted["assumed postcondition ("+"trusts "+label+") of "+res.Key+": "+en.Text] = true
+				continue
 			}
 			var hyps []string
 			for _, pre := range con.Uses[label] {
